@@ -152,7 +152,7 @@ func TestWakeup(t *testing.T) {
 		}
 		for _, o := range after1 {
 			if o == "(TUpstream LFetching)" && main2 == "(TUpstream LFetching)" {
-				rep["property"] = "C01"
+				rep["property"] = "C01+C20"
 				sum.ImplViolations = append(sum.ImplViolations, rep)
 				break
 			}
